@@ -424,6 +424,15 @@ func seqFrom(v0, k int) []int {
 	return r
 }
 
+// reduceWin maps three naturals to a window (a, n, k) of an array of capacity c:
+// 0 <= a, a+n <= k <= c  (the operands of the slice expression arr[a : a+n : k])
+func reduceWin(c, a, n, k int) (int, int, int) {
+	a %= c + 1
+	n = min(n, c-a)
+	k = a + n + k%(c-a-n+1)
+	return a, n, k
+}
+
 func parseInts(ts []string) ([]int, bool) {
 	r := make([]int, len(ts))
 	for i, t := range ts {
@@ -451,6 +460,10 @@ func impl(c core.Case) []string {
 	}
 	var f slicez.FlexSlice[int]
 	compact := false
+	// a handle f.Values[a:a+n:k] kept by `hold` (with the array it was cut from)
+	var held []int
+	var heldBase *int
+	heldA, heldN, heldK, heldCap := -1, -1, -1, -1
 	return core.RunOps(c,
 		func(h []string) string {
 			if len(h) != 2 || (h[0] != "flex" && h[0] != "flexL") {
@@ -495,6 +508,40 @@ func impl(c core.Case) []string {
 				a %= lim + 1
 				n = min(n, lim-a)
 				f.Prepend(f.Values[a : a+n]...)
+				return "ok | " + showFlex(compact, &f)
+			case "prependk", "appendk", "hold", "prependh", "appendh":
+				// the argument is the window (a, n, k) of the receiver's own array: f.Values[a:a+n:k]
+				if len(t) != 4 {
+					return "bad-op"
+				}
+				a, e1 := strconv.Atoi(t[1])
+				n, e2 := strconv.Atoi(t[2])
+				k, e3 := strconv.Atoi(t[3])
+				if e1 != nil || e2 != nil || e3 != nil || a < 0 || n < 0 || k < 0 {
+					return "bad-op"
+				}
+				a, n, k = reduceWin(cap(f.Values), a, n, k)
+				var base *int
+				if cap(f.Values) > 0 {
+					base = &f.Values[:1][0]
+				}
+				w := f.Values[a : a+n : k]
+				switch t[0] {
+				case "hold":
+					held, heldBase, heldA, heldN, heldK, heldCap = w, base, a, n, k, cap(f.Values)
+					return "ok"
+				case "prependh", "appendh":
+					// the handle kept across the operations in between, when the receiver still lives in
+					// the array it was cut from (then it is the window (a, n, k) of the current array)
+					if base != nil && base == heldBase && cap(f.Values) == heldCap && a == heldA && n == heldN && k == heldK {
+						w = held
+					}
+				}
+				if t[0][0] == 'p' {
+					f.Prepend(w...)
+				} else {
+					f.Append(w...)
+				}
 				return "ok | " + showFlex(compact, &f)
 			case "appendn", "prependn":
 				if len(t) != 3 {
@@ -856,12 +903,12 @@ func genFlex(r *core.Rand) core.Case {
 	size := 0 // rough length estimate, to aim indices
 	mode := r.Intn(3)
 	for i := 0; i < n; i++ {
-		w := []int{22, 18, 8, 12, 12, 10, 5, 4, 3, 7}
+		w := []int{22, 18, 8, 12, 12, 10, 5, 4, 3, 7, 9}
 		if mode == 1 { // draining phases: cross the shrink threshold
-			w = []int{4, 4, 4, 22, 28, 26, 5, 4, 3, 3}
+			w = []int{4, 4, 4, 22, 28, 26, 5, 4, 3, 3, 6}
 		}
 		if i < 3 && mode != 2 { // start with a burst so capacity passes 8
-			w = []int{50, 50, 0, 0, 0, 0, 0, 0, 0, 0}
+			w = []int{50, 50, 0, 0, 0, 0, 0, 0, 0, 0, 0}
 		}
 		if r.Chance(4) {
 			mode = r.Intn(3)
@@ -944,6 +991,50 @@ func genFlex(r *core.Rand) core.Case {
 				emit("prependw %d %d", a, k)
 			}
 			size += k // an upper bound (the harness clamps the window into the content)
+		case 10:
+			// Prepend / Append with a window (offset, length, CAPACITY) of the receiver's own array:
+			// f.Values[a:a+n:k] — three-index slices, clipped handles kept across Pops/Shifts, windows
+			// reaching into the spare capacity.  The harness reduces (A, N, K) into the current capacity:
+			// K = 0 clips the capacity to the length, a huge K ≡ -1 … leaves it reaching the array end.
+			a, k := r.Range(0, size+1), r.Range(1, 4)
+			if r.Chance(30) {
+				a = r.Range(0, size+9) // also into the spare capacity
+			}
+			if r.Chance(10) {
+				k = r.Range(0, 9)
+			}
+			kk := 0 // slices.Clip
+			switch r.Intn(4) {
+			case 1:
+				kk = r.Range(1, 3)
+			case 2:
+				kk = r.Range(0, 40)
+			}
+			op := "prepend"
+			if r.Chance(30) {
+				op = "append"
+			}
+			if r.Chance(35) {
+				// a handle kept across removals (no growth in between: the array mostly stays)
+				emit("hold %d %d %d", a, k, kk)
+				for j, m := 0, r.Range(1, 3); j < m; j++ {
+					switch r.Intn(4) {
+					case 0:
+						emit("shift")
+					case 1:
+						emit("remove %d", r.Range(0, size))
+					default:
+						emit("pop")
+					}
+					if size > 0 {
+						size--
+					}
+				}
+				emit("%sh %d %d %d", op, a, k, kk)
+			} else {
+				emit("%sk %d %d %d", op, a, k, kk)
+			}
+			size += k
 		}
 	}
 	return core.Case{Lines: lines, Tag: "flex"}
@@ -1332,6 +1423,10 @@ func corpus() []core.Case {
 		// F17: Prepend with an argument aliasing the receiver, with room to spare and without
 		{Tag: "corpus-flex", Lines: []string{"@ C14 flex 8", "append 1 2 3", "prependw 1 2", "len", "get 0", "get 1", "prependw 0 2", "prependw 6 1", "prependw 3 9", "prependc 6 4", "prependc 0 20"}},
 		{Tag: "corpus-flex", Lines: []string{"@ C14 flex 3", "append 1 2 3", "prependw 1 2", "prependw 4 1", "pop", "prependw 2 2"}},
+		// seed C14-K class: windows of the receiver's own array with a clipped capacity (Values[3:5:5] on
+		// [1..6] cap 16; a handle Values[2:4:4] kept across three Pops; Append of clipped windows)
+		{Tag: "corpus-flex", Lines: []string{"@ C14 flex 16", "append 1 2 3 4 5 6", "prependk 3 2 0", "prependk 1 2 1", "prependk 0 3 0", "appendk 2 3 0", "appendk 12 2 1", "prependk 14 2 0"}},
+		{Tag: "corpus-flex", Lines: []string{"@ C14 flex 0", "append 1 2 3 4 5 6 7 8", "hold 2 2 0", "pop", "pop", "pop", "prependh 2 2 0", "hold 1 3 0", "shift", "appendh 1 3 0", "hold 0 2 1", "pop", "pop", "pop", "pop", "pop", "pop", "prependh 0 2 1"}},
 		// wave 8 B: integer arguments at the edge of int.  Copy(s, 1, MaxInt) is the idiom "everything from index 1"
 		// (seed C14-I: start+length formed before the clamp wraps to MinInt); the other lines are the same class for
 		// every integer argument: a sum / difference / negation / increment formed before the comparison.
@@ -1827,6 +1922,34 @@ func checkFlex(c core.Case, out []string) *core.Failure {
 				return fail("flex-prepend-alias", "ok with content "+clipInts(spec)+" (Prepend of a window of the receiver's own array = that window followed by the old content, regardless of spare capacity)")
 			}
 			continue
+		case "hold":
+			if o != "ok" {
+				return fail("flex-seq", "ok")
+			}
+			continue
+		case "prependk", "appendk", "prependh", "appendh":
+			if prevMem == nil {
+				return nil
+			}
+			a, _ := strconv.Atoi(t[1])
+			n, _ := strconv.Atoi(t[2])
+			k, _ := strconv.Atoi(t[3])
+			a, n, _ = reduceWin(len(prevMem), a, n, k)
+			win := append([]int(nil), prevMem[a:a+n]...)
+			// sequence semantics for EVERY window (offset, length, capacity) of the receiver's array
+			// (c14_flex_prepend_window / c14_flex_append_window): the added cells are the window as it
+			// was before the call; the window's capacity does not matter
+			key, what := "flex-prepend-alias", "Prepend of a window [a:a+n:k] of the receiver's own array = that window followed by the old content, whatever the window's capacity k"
+			if t[0][0] == 'p' {
+				spec = append(win, spec...)
+			} else {
+				spec = append(append([]int(nil), spec...), win...)
+				key, what = "flex-append-alias", "Append of a window [a:a+n:k] of the receiver's own array = the old content followed by that window"
+			}
+			if res != "ok" || !sameContent(state, spec) {
+				return fail(key, "ok with content "+clipInts(spec)+" ("+what+")")
+			}
+			continue
 		case "appendn", "prependn":
 			k, _ := strconv.Atoi(t[1])
 			v0, _ := strconv.Atoi(t[2])
@@ -2055,6 +2178,43 @@ func classify(c core.Case, out []string) []string {
 					ls = append(ls, "flex prepend aliasing the receiver: in capacity, prefix window (sequence semantics)")
 				default:
 					ls = append(ls, "flex prepend aliasing the receiver: in capacity, inner window (copied before the shift)")
+				}
+			}
+			if len(t) == 4 && prevCap >= 0 && (t[0] == "prependk" || t[0] == "prependh" || t[0] == "appendk" || t[0] == "appendh") {
+				a, _ := strconv.Atoi(t[1])
+				n, _ := strconv.Atoi(t[2])
+				k, _ := strconv.Atoi(t[3])
+				a, n, k = reduceWin(prevCap, a, n, k)
+				op := "flex " + t[0] + " window (off,len,cap) of the receiver: "
+				path := "in capacity"
+				if prevLen+n > prevCap {
+					path = "reallocates"
+				}
+				switch {
+				case n == 0:
+					ls = append(ls, op+"empty window")
+				case k == prevCap:
+					ls = append(ls, op+path+", capacity reaches the array end")
+				case k == a+n:
+					ls = append(ls, op+path+", capacity clipped to the length")
+				default:
+					ls = append(ls, op+path+", capacity clipped between length and array end")
+				}
+				if n > 0 {
+					switch {
+					case a+n <= prevLen:
+						ls = append(ls, op+"inside the content")
+					case a >= prevLen:
+						ls = append(ls, op+"inside the spare capacity")
+					default:
+						ls = append(ls, op+"straddles the end of the content")
+					}
+					if t[0][0] == 'p' && path == "in capacity" && a < prevLen+n && a+n > n {
+						ls = append(ls, op+"cells overwritten by the in-place shift")
+					}
+					if t[0][0] == 'a' && path == "in capacity" && a < prevLen+n && a+n > prevLen {
+						ls = append(ls, op+"append target cells overlap the window")
+					}
 				}
 			}
 			if prevCap >= 0 && cp != prevCap && cp >= 9 && cp <= 15 {
